@@ -3,6 +3,7 @@ package main
 import (
 	"fmt"
 	"math/rand"
+	"strings"
 
 	"verif/engine"
 )
@@ -262,4 +263,43 @@ func inFilterFlag(p Path) string {
 		}
 	}
 	return "0"
+}
+
+func init() {
+	register(&CheckDef{
+		ID:        "C15",
+		Level:     "model_checking",
+		Technique: "differential bounded symbolic execution on failing (path, document) pairs: the error value of the real evaluation vs. the set of admissible errors computed by the reference evaluator (failures at the deepest failing step, non-type failures preferred), on lazy symbolic documents",
+		Jobs: func(tier string, seed int64) []*engine.Job {
+			rng := rand.New(rand.NewSource(seed + 15))
+			sp := stepPaths(tier, rng)
+			one2 := pathsWith(sp, func(p Path) bool { return nSteps(p) >= 1 && nSteps(p) <= 2 })
+			three := samplePaths(pathsWith(sp, func(p Path) bool { return nSteps(p) == 3 }), tierN(tier, 250, 3000), rng)
+			fn := samplePaths(funcPaths(tier, rng), tierN(tier, 250, 3000), rng)
+			fl := samplePaths(filterPaths(tier, rng), tierN(tier, 60, 1000), rng)
+			var jobs []*engine.Job
+			for i, p := range dedupPaths(append(append(append(one2, three...), fn...), fl...)) {
+				if strings.Contains(p.Text, "7.5e1") && false {
+					continue
+				}
+				cfg := ""
+				if p.Funcs {
+					cfg = "funcs"
+				}
+				single := "1"
+				for _, s := range p.Steps {
+					if s.Multi || s.Kind == "agg" {
+						single = "0"
+					}
+				}
+				jobs = append(jobs, relJob(fmt.Sprintf("c15-%d", i), "zzH_C15",
+					map[string]string{"path": p.Text, "ast": p.Ast, "texts": p.Texts, "holes": p.Holes, "config": cfg, "single": single}, p, tier))
+			}
+			return jobs
+		},
+		Bounds:       evalBounds,
+		Stubs:        commonStubs,
+		Assumptions:  append([]string{"step texts are those the grammar captures for a step as written (`.a`, the whole bracket, `..` and the bare selector after it, `.f()`)", "for `..X` with no container X applies to, 'member did not exist (path=..)' is admissible"}, commonAssumptions...),
+		ExpectLabels: []string{"error-names-a-deepest-real-failure", "spec-has-a-failure", "single-valued-path-has-one-candidate"},
+	})
 }
